@@ -594,11 +594,8 @@ def _corpus():
     out = []
     d = VERIF / "corpus" / "C11"
     if d.exists():
-        for f in sorted(d.glob("*.json")):
-            o = json.loads(f.read_text())
-            if o.get("part", "A") != "A":
-                continue
-            out.append(o)
+        for f in sorted(d.glob("partA_*.json")):  # part B keeps its own files (best_*.json) in the same directory
+            out.append(json.loads(f.read_text()))
     return out
 
 
@@ -760,7 +757,7 @@ def run(ctx: Ctx):
     graphs = []
     searches = []
     for o in _corpus():
-        if o["kind"] in ("bf", "fw", "graph"):
+        if o["kind"] in ("bf", "fw"):
             graphs.append((o["n"], [tuple(e) for e in o["edges"]], "corpus"))
         elif o["kind"] == "search":
             searches.append(_search_from_json(o))
@@ -927,8 +924,8 @@ def run(ctx: Ctx):
 
 
 def replay(obj):
-    k = obj.get("kind")
-    if k in ("bf", "fw", "graph"):
+    k = obj.get("kind") if obj.get("part") != "bestfirst" else "part-B"
+    if k in ("bf", "fw"):
         n, edges = obj["n"], [tuple(e) for e in obj["edges"]]
         _, problems, _ = judge_graph(n, edges)
         for what, rep in problems[:5]:
